@@ -1,6 +1,6 @@
 import Usid.Driver
-import Usid.Generated.JobWindow
-import Usid.Generated.RecommendCores
+import Usid.Model.LoopGen
+import Usid.Model.Memory
 /-! Handlers over the GENERATED kernels (translated from /repo on every run). -/
 namespace Usid.Driver
 open Lean Usid.J Usid.Generated
@@ -22,8 +22,58 @@ def hGenRecommend (j : Json) : R Json := do
     (recommend_cpu_cores (← int j "logical") (← int j "num_jobs") (← optInt j "requested")
       (← optInt j "min_free") (← bool j "lengthy"))
 
+def hGenLoop (j : Json) : R Json := do
+  let r := computeLoop (← int j "logical") (← int j "cores") (← nat j "fuel") (← int j "start") (← int j "stop")
+    (← int j "batch") 0 []
+  return match r with
+  | .error e => err e
+  | .ok none => Json.mkObj [("ok", Json.str "no-termination")]
+  | .ok (some ms) => ok (ofIntListList (ms.map (fun m => [m.1, m.2])))
+
+def hMaxPos (j : Json) : R Json := do
+  let mb : Option Nat := match j.getObjVal? "mb" with
+    | .ok .null => none
+    | .ok v => (v.getNat?).toOption
+    | .error _ => none
+  let g := Usid.Mem.granted (← nat j "avail") mb
+  return Json.mkObj [("granted", g),
+    ("maxpos", Usid.Mem.maxPos g (← nat j "workers") (← nat j "rowbytes") (← nat j "num") (← nat j "den"))]
+
+def optNat (j : Json) (k : String) : Option Nat :=
+  match j.getObjVal? k with
+  | .ok .null => none
+  | .ok v => (v.getNat?).toOption
+  | .error _ => none
+
+/-- constructor sizing: generated `__set_cores`, then the exact-arithmetic `__set_memory` -/
+def sizing (j : Json) : R (Except PyErr (Int × Nat)) := do
+  match set_cores (← int j "logical") (← optInt j "cores") with
+  | .error e => return .error e
+  | .ok c =>
+    let g := Usid.Mem.granted (← nat j "avail") (optNat j "mb")
+    return .ok (c, Usid.Mem.maxPos g c.toNat (← nat j "rowbytes") (← nat j "num") (← nat j "den"))
+
+def hGenSizing (j : Json) : R Json := do
+  return match ← sizing j with
+  | .error e => err e
+  | .ok (c, mp) => Json.mkObj [("cores", toJson c), ("maxpos", mp)]
+
+/-- sizing followed by the compute loop over `n` pending positions -/
+def hGenRun (j : Json) : R Json := do
+  match ← sizing j with
+  | .error e => return err e
+  | .ok (c, mp) =>
+    let n ← nat j "n"
+    let r := computeLoop (← int j "logical") c (n + 2) 0 n mp 0 []
+    let res := match r with
+      | .error e => err e
+      | .ok none => Json.mkObj [("ok", Json.str "no-termination")]
+      | .ok (some ms) => ok (ofIntListList (ms.map (fun m => [m.1, m.2])))
+    return Json.mkObj [("cores", toJson c), ("maxpos", mp), ("loop", res)]
+
 def genHandlers : List (String × (Json → R Json)) := [
   ("gen.assign", hGenAssign), ("gen.window", hGenWindow), ("gen.set_cores", hGenSetCores),
-  ("gen.recommend", hGenRecommend)
+  ("gen.recommend", hGenRecommend), ("gen.loop", hGenLoop), ("mem.maxpos", hMaxPos),
+  ("gen.sizing", hGenSizing), ("gen.run", hGenRun)
 ]
 end Usid.Driver
